@@ -348,6 +348,12 @@ def cases(tier, rng, extended=False):
     for b in (65, 128, 129, 500, 512, 513, 700, 1023):
         yield from cbig(rng.getrandbits(b) & ~1 | (1 << (b - 1)), tag="C:even")
     yield from cbig(1 << 64, tag="C:even")
+    # multiword evens whose LOW WORD is a small even number (2 in particular): a truncating even test would accept them
+    for j in (64, 65, 127, 128, 200, 448, 500):
+        for low in (2, 4, 0):
+            yield from cbig((1 << j) + low, tag="C:even")
+    for _ in range(12):
+        yield from cbig((rng.getrandbits(rng.randrange(1, 440)) << 64) + 2, tag="C:even")
     yield from cbig(W + 1)
     yield from cbig(W + 13)
     for b in (513, 600, 1024):                                          # assert in ZmodN::new: panic in both profiles
